@@ -1,6 +1,8 @@
 package agreement
 
 import (
+	"sync/atomic"
+	ve "github.com/algorand/go-algorand/verifeng"
 	"fmt"
 	"os"
 	"strings"
@@ -61,6 +63,9 @@ func TestVerif_C02smdev(t *testing.T) {
 				fmt.Printf("        n%d %-70s -> %v\n", sub.node, sub.event, sub.acts)
 			}
 		}
+		for _, m := range out.equivoc {
+			fmt.Printf("        EQUIVOCATION %s\n", m)
+		}
 		if out.panicMsg != "" {
 			fmt.Printf("        PANIC %s\n", out.panicMsg)
 		}
@@ -71,4 +76,114 @@ func TestVerif_C02smdev(t *testing.T) {
 	for _, n := range s.nodes {
 		fmt.Printf("node %d: round %d period %d step %d passive %v\n", n.id, n.p.Round, n.p.Period, n.p.Step, n.passive)
 	}
+}
+
+func TestVerif_C02smdev2(t *testing.T) {
+	r := ve.NewRun("C02", "fault_enumeration")
+	b := c02Configs(0)[0]
+	var n, rel2, c2, tk, small, zeroPersist, tk2, tk3 int64
+	var key48, key49 [16]byte
+	{
+		devAt := map[int]string{21: "crash", 24: "crash"}
+		s := eagrNewSys(b.cfg)
+		out := &eagrOut{}
+		s.boot(out)
+		s.fixBarrier()
+		for i := 0; i < 50; i++ {
+			evs := b.enabled(s)
+			e := evs[0]
+			if k, ok := devAt[i]; ok {
+				for _, x := range evs {
+					if x.K == k {
+						e = x
+						break
+					}
+				}
+			}
+			s = s.clone()
+			out = &eagrOut{}
+			s.apply(e, out)
+			if i == 48 {
+				key48 = s.key()
+			}
+			if i == 49 {
+				key49 = s.key()
+				fmt.Printf("dev step 49: %v panic=%q conflicts=%v\n", e, out.panicMsg, out.conflicts)
+			}
+		}
+	}
+	b.onStep = func(pre *eagrSys, e eagrEv, post *eagrSys, out *eagrOut, path func() []eagrEv) {
+		if pre.key() == key48 {
+			fmt.Printf("EXPLORER from key48: %v -> post==key49:%v panic=%q conflicts=%v path=%v\n", e, post.key() == key49, out.panicMsg, out.conflicts, path())
+		}
+		for _, m := range out.equivoc {
+			if atomic.AddInt64(&n, 1) <= 2 {
+				fmt.Printf("EQUIVOC %s\n path %v\n", m, path())
+			}
+		}
+		if e.K == "crash" && pre.nodes[e.N].crashes == 1 {
+			if _, ok := pre.nodes[e.N].released[eagrRPS{1, 0, 1}]; ok {
+				if len(pre.nodes[e.N].disk) < 1000 {
+					atomic.AddInt64(&small, 1)
+				}
+				if atomic.AddInt64(&c2, 1) <= 3 {
+					nn := post.nodes[e.N]
+					fmt.Printf("second crash after soft release: node %d disk=%d bytes, post round=%d period=%d step=%d loop=%d ghost=%d passive=%v\n", e.N, len(pre.nodes[e.N].disk), nn.p.Round, nn.p.Period, nn.p.Step, len(nn.loop), len(nn.released), nn.passive)
+				}
+			}
+		}
+		if e.K == "loop" && len(post.nodes[e.N].disk) < 1000 && post.nodes[e.N].disk != nil {
+			atomic.AddInt64(&zeroPersist, 1)
+		}
+		if e.K == "tick" {
+			for j, nn := range post.nodes {
+				if nn.crashes >= 2 && e.Idx&(1<<uint(j)) != 0 {
+					atomic.AddInt64(&tk2, 1)
+					if len(nn.disk) < 1000 {
+						atomic.AddInt64(&tk3, 1)
+					}
+					if _, ok := nn.released[eagrRPS{1, 0, 1}]; ok && atomic.AddInt64(&tk, 1) <= 3 {
+						fmt.Printf("tick of node %d after 2 crashes with earlier soft release: step now %d loop=%d\n", j, nn.p.Step, len(nn.loop))
+					}
+				}
+			}
+		}
+		if e.K == "loop" && post.nodes[e.N].crashes >= 2 && len(out.released) > 0 {
+			if atomic.AddInt64(&rel2, 1) <= 3 {
+				fmt.Printf("release after 2 crashes: %v ghost=%v trackVotes=%v\n", out.released[0].R, post.nodes[e.N].released, post.cfg.trackVotes)
+			}
+		}
+	}
+	res := b.run(r)
+	fmt.Printf("states=%d transitions=%d equivocs=%d rel2=%d crashes=%d c2=%d tk=%d\n", res.states, res.transitions, n, rel2, res.stats.crashes, c2, tk)
+	fmt.Printf("small-disk second crashes=%d loop steps with small disk=%d\n", small, zeroPersist)
+	// walk the hand-made double-crash path and look every state up in the visited set
+	{
+		devAt := map[int]string{21: "crash", 24: "crash"}
+		s := eagrNewSys(b.cfg)
+		out := &eagrOut{}
+		s.boot(out)
+		s.fixBarrier()
+		fmt.Printf("init visited=%v\n", b.lastVisited.has(s.key()))
+		for i := 0; i < 60; i++ {
+			evs := b.enabled(s)
+			if len(evs) == 0 {
+				break
+			}
+			e := evs[0]
+			if k, ok := devAt[i]; ok {
+				for _, x := range evs {
+					if x.K == k {
+						e = x
+						break
+					}
+				}
+			}
+			s = s.clone()
+			out = &eagrOut{}
+			s.apply(e, out)
+			fmt.Printf("%3d %-60v visited=%v devs=%v\n", i, e, b.lastVisited.has(s.key()), s.devs)
+		}
+	}
+	fmt.Printf("ticks by twice-crashed nodes=%d, of which with zero-state disk at tick time=%d\n", tk2, tk3)
 }
